@@ -123,24 +123,32 @@ class C10(Property):
                   "nothing had been cancelled when the caller received it; terminal_clean (no deadlock, no leaked goroutine), a "
                   "termination measure decreased by every step: every run is finite, no reachable deadlock, every fair infinite "
                   "schedule reaches a clean terminal state. Both output protocols (today's and the candidate F13 repair) are covered; "
-                  "the one in force is regenerated from mapreduce.go. Tie: forced schedules (gated callbacks + goroutine quiescence) "
+                  "the one in force is regenerated from mapreduce.go. errorx.AtomicError over Go interface values (typed nils are non-nil): "
+                  "Set of any non-nil interface value is loaded, nil ignored, last / concurrent Sets (every order), what cancel stores for "
+                  "every value and its refinement to the LTS; a non-error outcome is committed only if nothing was cancelled. Tie: forced schedules (gated callbacks + goroutine quiescence) "
                   "with a goroutine census, window families for every library sequence a callback can hold open.")
     level_note = ("Trusted: Coq kernel + vm_compute; hand-written model (atomicity: recover+failed+++CAS one step, guard check "
                   "at the start of Write, close(done)+close(output) one step); correspondence only on generated forced "
                   "schedules; quiescence read from runtime.Stack; runs in which Go's select had several ready cases are "
                   "compared on the property only (counted as racy).")
-    rule = ("cases: 55 % free shuffles + 45 % window families (11 setups: a library-internal sequence of core/mr held open by a stalled "
+    rule = ("cases: fixed corpus (~145) first; generated: 45 % free shuffles, 35 % window families, 11 % stragglers, 5 % held caller, 4 % AtomicError histories (window families = 11 setups: a library-internal sequence of core/mr held open by a stalled "
             "callback, the other callbacks acting inside it); API in {MapReduce, MapReduceVoid, MapReduceChan, ForEach, Finish, FinishVoid}; "
             "WithWorkers absent / negative / 0 / 1..4 / given twice; context passed / absent / already cancelled / already expired; items "
             "0..workers+3, fan-out 0..3; 0..4 faults (cancel(nil) / cancel(err) with plain, sentinel (ErrCancelWithNil, ErrReduceNoOutput, "
             "context errors, io.EOF, bare and wrapped) and differently typed errors / panic in generator, mapper, reducer / context end) at "
-            "random positions; random release order with stalled functions; non-trivial = at least two mapper invocations and (a fault "
+            "random positions; error VALUES by identity (typed nil pointer / channel errors, non-nil pointer, struct value and its zero, "
+            "errors.New, %w-wrapped, the package's and context's sentinels bare and wrapped, an error whose Error() panics) passed to "
+            "cancel, returned by Finish functions and used as panic values (also panic(nil), a string) - fixed corpus for every value x API "
+            "x role plus substitution in generated cases; errorx.AtomicError driven directly (Set / Load / concurrent Sets); "
+            "random release order with stalled functions; non-trivial = at least two mapper invocations and (a fault "
             "was executed, or more items than workers with fan-out >= 1); distinct = canonical JSON hash")
     trusted_base = [
         "model theories/C10/Model.v is hand-written; tie = forced-schedule correspondence run (harness/cmd/c10) through the public API",
         "quiescence and the goroutine census are read from runtime.Stack (goroutine states and core/mr frames)",
         "atomicity granularity of the model (see Model.v header); Go's select/channel semantics as modelled",
         "free-running -race monitor (thorough tier) is evidence for, not a proof of, the atomicity assumption",
+        "the table of error values (which executor code is which dynamic type / payload: AtomicErr.dyn_of_code vs harness/cmd/c10 sentinels) "
+        "is hand-written on both sides; the direct AtomicError histories compare them (a wrong type in the table shows as a disagreement)",
     ]
     assumptions = ["items are distinct integers (so that invocations can be identified)",
                    "a source passed to MapReduceChan is eventually closed by its owner",
